@@ -175,12 +175,15 @@ func eraNet(era string, idx int, rng *rand.Rand) *chaingen.Net {
 		n.HardforkTax.Height, n.HardforkStorageProof.Height = 0, never
 	case "C":
 		n.HardforkTax.Height, n.HardforkStorageProof.Height = 0, 0
+	case "boundary":
+		n.HardforkTax.Height = uint64(12 + rng.IntN(4))
+		n.HardforkStorageProof.Height = n.HardforkTax.Height + uint64(5+rng.IntN(4))
 	}
 	if era == "v2" {
 		// v2 allowed from block 1, never required (so v1 payments can still fragment outputs)
-		n.HardforkV2.AllowHeight, n.HardforkV2.RequireHeight, n.HardforkV2.FinalCutHeight, n.HardforkV2.EphemeralOutputHeight = 1, never, never + 1, 1
+		n.HardforkV2.AllowHeight, n.HardforkV2.RequireHeight, n.HardforkV2.FinalCutHeight, n.HardforkV2.EphemeralOutputHeight = 1, never, never+1, 1
 	} else {
-		n.HardforkV2.AllowHeight, n.HardforkV2.RequireHeight, n.HardforkV2.FinalCutHeight, n.HardforkV2.EphemeralOutputHeight = never, never + 1, never + 2, never
+		n.HardforkV2.AllowHeight, n.HardforkV2.RequireHeight, n.HardforkV2.FinalCutHeight, n.HardforkV2.EphemeralOutputHeight = never, never+1, never+2, never
 	}
 	n.MaturityDelay = 1
 	return &chaingen.Net{Name: n.Name, Family: "era-" + era, N: n}
@@ -215,8 +218,49 @@ func runProofs(b *harness.B, era string, part int) {
 		}
 	}
 	const perBlock = 6
-	for off := 0; off < len(jobs); off += perBlock {
-		grp := jobs[off:min(off+perBlock, len(jobs))]
+	boundary := era == "boundary"
+	var doGroup func(grp []job, era string)
+	if boundary {
+		// proofs are offered exactly at the heights around the two v1 leaf-rule forks; the era of each proof height
+		// is computed from the network parameters (A below the tax fork, B below the storage-proof fork, C from it on)
+		n := net.N
+		eraOf := func(h uint64) string {
+			switch {
+			case h < n.HardforkTax.Height:
+				return "A"
+			case h < n.HardforkStorageProof.Height:
+				return "B"
+			}
+			return "C"
+		}
+		// each group consumes two blocks, so consecutive heights are visited on two chains of the same network
+		targets := []uint64{n.HardforkTax.Height - 1, n.HardforkTax.Height + 1, n.HardforkStorageProof.Height - 1, n.HardforkStorageProof.Height + 1}
+		if part == 1 {
+			targets = []uint64{n.HardforkTax.Height, n.HardforkStorageProof.Height}
+		}
+		defer func() {
+			for _, tgt := range targets {
+				for c.Height()+2 < tgt {
+					if blk, bs, err := c.EmptyBlock(); err != nil || c.Offer(blk, bs, nil) != nil {
+						return
+					}
+				}
+				if c.Height()+2 != tgt {
+					b.Inconclusive("boundary schedule overshot its target height")
+					continue
+				}
+				var grp []job
+				for _, sz := range []int{64, 64, 128, 0, 100, 192} {
+					grp = append(grp, job{sz, randData(rng, sz)})
+				}
+				doGroup(grp, eraOf(tgt))
+				b.Count("proofs_offered_at_era_boundary_heights", 1)
+				b.SetAdd("boundary_heights", fmt.Sprintf("height %d = era %s (tax fork %d, storage-proof fork %d)", tgt, eraOf(tgt), n.HardforkTax.Height, n.HardforkStorageProof.Height))
+			}
+		}()
+		jobs = nil
+	}
+	doGroup = func(grp []job, era string) {
 		H := c.Height()
 		var ids []types.FileContractID
 		var blk types.Block
@@ -237,11 +281,11 @@ func runProofs(b *harness.B, era string, part int) {
 		}
 		if err != nil {
 			b.Inconclusive("formation block could not be built: " + err.Error())
-			continue
+			return
 		}
 		if err := c.Offer(blk, bs, []string{"form"}); err != nil {
 			b.Violate("C07/formation-rejected/"+era, "block forming generator contracts rejected: "+chaingen.NormErr(err), nil)
-			continue
+			return
 		}
 		// tip is now H+1; proofs are offered in candidate blocks at height H+2
 		cs := c.Tip()
@@ -286,6 +330,9 @@ func runProofs(b *harness.B, era string, part int) {
 				continue
 			}
 			knownIncomplete := era == "B" && j.size%64 == 0 && idx == uint64(nLeaves-1)
+			if boundary {
+				b.Distinct("boundary", era, H+2, j.size)
+			}
 			for _, pc := range cases(rng, j.data, idx, v2, era) {
 				blk, bs, err := mk(pc, id)
 				if err != nil {
@@ -349,7 +396,12 @@ func runProofs(b *harness.B, era string, part int) {
 			}
 		}
 		// let the rest expire / keep the chain moving
-		c.Grow(1, chaingen.Plan{MaxTxns: 4, Only: []string{pay}})
+		if !boundary {
+			c.Grow(1, chaingen.Plan{MaxTxns: 4, Only: []string{pay}})
+		}
+	}
+	for off := 0; off < len(jobs); off += perBlock {
+		doGroup(jobs[off:min(off+perBlock, len(jobs))], era)
 	}
 	b.Sample(map[string]any{"era": era, "sizes": len(sizes), "contracts": len(jobs), "height": c.Height()})
 }
@@ -590,12 +642,16 @@ func main() {
 				runProofs(b, "v2", 0)
 			case 4:
 				runSecondProver(b)
+			case 5:
+				runProofs(b, "boundary", 0)
+			case 6:
+				runProofs(b, "boundary", 1)
 			default:
 				runHistories(b)
 			}
 		},
 		MinEvals:    3000,
 		MinDistinct: 150,
-		Require:     []string{"honest_proofs_accepted", "corrupted_proofs_rejected", "second_prover_proofs_compared", "blocks_applied", "blocks_reverted", "v1_resolved_valid", "v1_resolved_missed", "v2_resolved_proof", "v2_resolved_expiration", "v2_resolved_renewal", "v1_revisions_checked", "v2_revisions_checked", "contract_payout_outputs_checked", "illegal_revisions_rejected"},
+		Require:     []string{"honest_proofs_accepted", "corrupted_proofs_rejected", "second_prover_proofs_compared", "proofs_offered_at_era_boundary_heights", "blocks_applied", "blocks_reverted", "v1_resolved_valid", "v1_resolved_missed", "v2_resolved_proof", "v2_resolved_expiration", "v2_resolved_renewal", "v1_revisions_checked", "v2_revisions_checked", "contract_payout_outputs_checked", "illegal_revisions_rejected"},
 	})
 }
